@@ -1,6 +1,7 @@
 //! unit: u19
 //! properties: C19
 //! note: MonitorUpdatingPersisterAsync clean-up: every KVStore::remove of an incremental update is for an id <= the latest_update_id of the full monitor read from the store (trace property written as the precondition of the external remove())
+//! trusted: R15 (deep slice + capture): update_persisted_channel: the expression deciding whether only the update or the whole monitor is written (with the function-local const LEGACY_CLOSED_CHANNEL_UPDATE_ID), verbatim as a function of the update id and the configured interval
 //! trusted: R5: MonitorUpdatingPersisterAsyncInner<K,..> self skeleton {kv_store}; KVStore is a stub with async list/remove (remove carries the trace precondition); UpdateName is a skeleton (u64, String) whose new()/from()/as_str() are external_body with the id/name correspondence (id_of_name uninterpreted: the name determines the id); MonitorName opaque with from_str/to_key external_body (to_key(from_str(k)) == k assumed); maybe_read_monitor is external_body: the monitor it returns is the stored one, i.e. its latest_update_id == stored_latest(key) (definition of stored_latest)
 //! plemma: C19 call-site precondition of KVStore::remove in cleanup_stale_updates / cleanup_stale_updates_for_monitor_to / cleanup_in_range and of both clean-up calls after the consolidating write in update_persisted_channel: id_of_name(key) <= stored_latest(monitor key) -- clean-up never deletes an update that recovery still needs
 //! trusted: R13: `for x in a..=b` rewritten into an explicit loop over the inclusive range
@@ -76,6 +77,7 @@ impl ChannelMonitor {
     #[verifier::external_body]
     pub fn get_latest_update_id(&self) -> (r: u64) ensures r == self.latest { unimplemented!() }
 }
+pub struct UpdateIdOnly { pub update_id: u64 }
 pub struct MonitorUpdatingPersisterAsyncInner { pub kv_store: KVStoreStub, pub maximum_pending_updates: u64 }
 impl MonitorUpdatingPersisterAsyncInner {
     // the monitor with every stored incremental update replayed on top: at least as new as the stored full monitor (environment
@@ -140,6 +142,21 @@ impl MonitorUpdatingPersisterAsyncInner {
 //@end
 
 // ---- what happens after the consolidating full-monitor write (deep R15 slice of update_persisted_channel) ----
+//@extract lightning/src/util/persist.rs :: impl MonitorUpdatingPersisterAsyncInner :: fn update_persisted_channel
+//@capture R15
+    const LEGACY_CLOSED_CHANNEL_UPDATE_ID: u64 = $legacy;
+//@slice R15
+    let persist_update = $e:seq; if persist_update {
+//@with
+    fn only_the_update_is_written(&self, update: &UpdateIdOnly) -> bool { const LEGACY_CLOSED_CHANNEL_UPDATE_ID: u64 = $legacy; let persist_update = $e; persist_update }
+//@ret r
+//@ensures P C19 the-full-monitor-is-written-for-every-update-whose-id-is-a-multiple-of-the-configured-interval-for-a-legacy-closed-channel-update-and-always-when-the-interval-is-zero-otherwise-only-the-update
+    r == (update.update_id != u64::MAX && self.maximum_pending_updates != 0 && update.update_id % self.maximum_pending_updates != 0),
+//@mutant consolidation_interval_off_by_one
+    update.update_id % self.maximum_pending_updates != 0;
+//@with
+    update.update_id % self.maximum_pending_updates != 1;
+//@end
 //@extract lightning/src/util/persist.rs :: impl MonitorUpdatingPersisterAsyncInner :: fn update_persisted_channel
 //@strip io
 //@capture R15
